@@ -156,6 +156,9 @@ class C05(Prop):
             try:
                 outs = run_schedule(text, names, sig, sched, pastify)
             except Exception as e:
+                if all(x != x for x in exp.vs):
+                    v.skip = 'raised on a completely NaN-tainted formula'
+                    return v
                 v.bad('raises:' + type(e).__name__, '%s signals=%s schedule %s: update raised %s: %s' % (
                     text, case['signals'], desc, type(e).__name__, e),
                     findings.c05_attribution(f, sig, sched, 'raises', str(e), pastify))
